@@ -90,7 +90,10 @@ Definition x_model_in_lookups (e : env) (cl : cluster) (r : resource) (deps look
                                  | _ => true end) md in
   forallb (fun d => match fst d with
                     | KDos | KDosPolicy | KDosLogConf => negb clean || negb (in_universe revs d) || mem_dep d deps
-                    | _ => mem_dep d lookups
+                    (* an observed dependency is as good as a recorded look-up: with a NAMED targetPort and no pods yet,
+                       getTargetPort fails before the EndpointSlices are listed, yet the first slice + pod of the Service
+                       changes the result *)
+                    | _ => mem_dep d lookups || mem_dep d deps
                     end) md.
 
 Definition model_direct (e : env) (k : kind) (ns name : string) (r : resource) : bool :=
